@@ -1,4 +1,5 @@
 import FastgoModel.Props.C10
+import FastgoModel.Proofs.TokenCheck
 /-!
 # C01 — compress then decompress returns the input, for every call pattern
 
@@ -14,6 +15,12 @@ boundary) — nothing is missing and nothing follows.
 `C01_empty`: Close straight after NewWriter/Reset yields a valid stream of no data (the final empty stored block).
 
 `C01_roundtrip_huff`: the same for the Huffman-only compressor (level -2) under `HSound`.
+
+`C01_checked_call_meets_contract` (= `checkGen_gives_gen`): a match-finder call that passes the executable check
+`checkGen` — which the `G` correspondence applies to recorded calls of the Go and assembly match finders at every
+acceleration level — satisfies the equation of `Sound.gen` for that call, with `resolve := resolveR` (real tokens
+executed the way an inflater executes them; `resolveR_nil`, `resolveR_app` are the two laws `Sound` asks of it), for
+ANY history in front of the buffer. So `Sound.gen` is not only assumed: it is checked call by call with a proved check.
 
 Scope of the theorems: the dynamic compressor (levels 1, 2, default; both windows — `Cfg.window` is a parameter)
 given leaves that meet `Sound`, and the Huffman-only compressor given a block encoder that meets `HSound`. Decided by the harness oracle only (see evidence): that the Go/assembly leaves
@@ -54,6 +61,12 @@ theorem C01_roundtrip_huff {σ : Type} (L : HuffLeaf σ) {mode : Mode} (S : HSou
   obtain ⟨c1, _, c3, _⟩ := hClose_tracks L S _ _ ht
   exact ⟨c1, closedStream_inflate c3⟩
 
+theorem C01_checked_call_meets_contract (window : Nat) (pre buf : List UInt8) (idx nIdx : Nat) (toks : List RTok)
+    (hn : nIdx ≤ buf.length) (hc : checkGen window buf.toArray nIdx idx toks = true) :
+    resolveR (pre ++ buf.take idx) toks = (buf.drop idx).take (nIdx - idx) ∧ idx ≤ nIdx ∧
+    ∀ t ∈ toks, t.inWindow window :=
+  checkGen_gives_gen window pre buf idx nIdx toks hn hc
+
 /-- every accepted Write reports the full length on a healthy destination unless it stopped for lack of
     progress — the data the theorem speaks about is what the caller was told was accepted -/
 theorem C01_data_is_what_was_accepted (D : List UInt8) (data : List UInt8) (r : OpRes) (h : r.n = data.length) :
@@ -84,3 +97,5 @@ end Fastgo.Writer
 #print axioms Fastgo.Writer.C01_roundtrip_dyn
 #print axioms Fastgo.Writer.C01_empty
 #print axioms Fastgo.Writer.C01_roundtrip_huff
+#print axioms Fastgo.Writer.C01_checked_call_meets_contract
+#print axioms Fastgo.Writer.resolveR_app
